@@ -75,13 +75,13 @@ def apiLine (d : ApiSt) (ws : List String) : ApiSt × String :=
       ({ max := m, strict := q4, q := { wildcardShort := q1, v6Fallback := q2, watchdogAll := q3 }, service := svc,
          st := { version := v, ack := a } }, "ok")
     | _, _, _, _, _ => bad
-  | ["nbr", pa, li, la, pas, rid, fa, fams, att, enh] =>
-    match hexWord? pa, hexWord? li, hexWord? la, hexWord? pas, hexWord? rid, hexWord? fa, natList? fams, bool? att, bool? enh with
-    | some pa, some li, some la, some pas, some rid, some fa, some fams, some att, some enh =>
+  | ["nbr", pa, li, la, pas, rid, fa, fams, att, enh, ribfams] =>
+    match hexWord? pa, hexWord? li, hexWord? la, hexWord? pas, hexWord? rid, hexWord? fa, natList? fams, bool? att, bool? enh, natList? ribfams with
+    | some pa, some li, some la, some pas, some rid, some fa, some fams, some att, some enh, some ribfams =>
       let n : Nbr := { peerAddr := pa, localIp := li, localAs := la, peerAs := pas, routerId := rid,
                        familyAllowed := fa, families := fams, attached := att, enhanced := enh }
-      ({ d with nbrs := d.nbrs ++ [n], st := { d.st with ribs := d.st.ribs ++ [Rib.init true fams] } }, "ok")
-    | _, _, _, _, _, _, _, _, _ => bad
+      ({ d with nbrs := d.nbrs ++ [n], st := { d.st with ribs := d.st.ribs ++ [Rib.init true ribfams] } }, "ok")
+    | _, _, _, _, _, _, _, _, _, _ => bad
   | ["wdname", w, id] =>
     match hexWord? w, id.toNat? with
     | some w, some id => ({ d with wdTab := d.wdTab ++ [(w, id)] }, "ok")
